@@ -121,3 +121,29 @@ COMPONENTS = {
             "simulated": ["caller program", "numpy global RNG history", "wall clock", "stderr stream with write faults"],
             "stub": [], "absent": ["tqdm monitor thread (disabled)", "MPI/CUDA"]},
 }
+
+
+INVARIANTS = {
+    "cg": ["krylov_optimality", "anorm_error_increased", "finite_termination", "tracked_residual", "resid_not_rz",
+           "solution_not_in_callers_array", "x_written_by_constructor", "ledger", "query_changed_state",
+           "breakdown_moves_solution", "breakdown_not_done", "nonfinite_iterate", "loop_exceeds_max_iter",
+           "solver_state_shared_between_instances", "library_raised"],
+    "pg": ["objective_increased", "rate_O1k", "rate_O1k2", "below_certified_optimum", "objective_not_finite",
+           "saddle_point_not_fixed", "weighted_distance_increased", "not_converged", "nonfinite_iterate",
+           "solution_not_in_callers_array", "dual_not_in_callers_array", "ledger", "query_changed_state",
+           "solver_state_shared_between_instances", "library_raised"],
+    "stop": ["iter_advances_by_one", "iter_counts_updates", "query_changed_state", "state_differs_from_canonical_run",
+             "loop_exceeds_max_iter", "run_exceeds_max_iter", "run_returned_before_done", "run_output_not_held_solution",
+             "run_update_count_differs_from_manual_loop", "run_result_differs_from_manual_loop",
+             "early_stop_not_fixed_point", "abandoned_update_stops_the_loop", "power_estimate_decreased",
+             "power_estimate_exceeds_lmax", "power_estimate_not_finite", "library_raised"],
+    "rng": ["global_rng_state_changed", "mask_not_reproducible", "earlier_mask_changed", "mask_not_binary", "mask_shape",
+            "mask_dtype", "mask_empty", "accel_out_of_tolerance", "accel_le_1_accepted", "calibration_not_fully_sampled",
+            "sample_outside_cropped_region", "poisson_does_not_terminate", "library_raised"],
+    "ops": ["caller_array_modified", "reapplication_differs", "not_linear_over_C", "output_shape_not_advertised",
+            "output_not_array"],
+    "lls": ["not_the_documented_minimiser", "constraint_violated", "result_not_callers_array", "result_shape",
+            "result_not_finite", "caller_array_modified", "answer_depends_on_rng_history",
+            "result_depends_on_absorbed_faults", "objective_values_length",
+            "objective_value_differs_from_documented_objective", "library_raised"],
+}
